@@ -1323,6 +1323,25 @@ class FnTranslator:
             return "'(" + ', '.join(pats) + ')', env
         raise TransError('assignment target %s' % type(target).__name__)
 
+    def check_tails(self, st):
+        """the extra fields of an annotation are modelled as one opaque tail: a statement that splits X into X[:k]
+        and X[j:] is accepted only when the tail starts where the geometry ends (j = k) -- otherwise a field would be
+        dropped or duplicated, which the opaque tail cannot show"""
+        if not isinstance(st, (ast.Assign, ast.Return, ast.AnnAssign, ast.Expr)) or getattr(st, 'value', None) is None:
+            return
+        pre, suf = {}, {}
+        for n in ast.walk(st.value):
+            if isinstance(n, ast.Subscript) and isinstance(n.value, ast.Name) and isinstance(n.slice, ast.Slice) and n.slice.step is None:
+                lo, hi = n.slice.lower, n.slice.upper
+                if lo is None and isinstance(hi, ast.Constant) and isinstance(hi.value, int):
+                    pre.setdefault(n.value.id, set()).add(hi.value)
+                if hi is None and isinstance(lo, ast.Constant) and isinstance(lo.value, int):
+                    suf.setdefault(n.value.id, set()).add(lo.value)
+        for name in pre:
+            if name in suf and pre[name] != suf[name]:
+                raise TransError('the tail of %s starts at %s but its geometry ends at %s (line %d)'
+                                 % (name, sorted(suf[name]), sorted(pre[name]), st.lineno))
+
     def block(self, stmts, env, k):
         """Coq term for executing stmts then k(env).  k is None when the block must terminate."""
         if not stmts:
@@ -1331,6 +1350,7 @@ class FnTranslator:
             return k(env)
         st, rest = stmts[0], stmts[1:]
         cont = lambda env2: self.block(rest, env2, k)
+        self.check_tails(st)
 
         if isinstance(st, ast.Expr) and isinstance(st.value, ast.Constant):
             return cont(env)  # docstring
